@@ -1,7 +1,7 @@
 SPECIFICATION Spec
 CONSTANTS
   Chars = {97, 13, 10, 61, 91}
-  MaxLen = 5
+  MaxLen = 4
 INVARIANTS Inside NoLfInside Tiles Terminates GenSized ReqBound
 CONSTRAINT Emit
 CHECK_DEADLOCK FALSE
